@@ -431,6 +431,20 @@ impl<'a> R1<'a> {
             Rel::First => G::Fresh(vec![10], vec![G::Eq(T::cons(v(1), v(10)), v(0))]),
             Rel::Rest => G::Fresh(vec![10], vec![G::Eq(T::cons(v(10), v(1)), v(0))]),
             Rel::Empty => G::Eq(T::Nil, v(0)),
+            // as documented: all elements pairwise different (the library's own recursion scheme)
+            Rel::Distinct => G::Conde(vec![
+                vec![G::Eq(v(0), T::Nil)],
+                vec![G::Fresh(vec![10], vec![G::Eq(v(0), T::list(vec![v(10)]))])],
+                vec![G::Fresh(
+                    vec![10, 11, 12],
+                    vec![
+                        G::Eq(v(0), T::cons(v(10), T::cons(v(11), v(12)))),
+                        G::Neq(v(10), v(11)),
+                        G::Call(Rel::Distinct, vec![T::cons(v(10), v(12))]),
+                        G::Call(Rel::Distinct, vec![T::cons(v(11), v(12))]),
+                    ],
+                )],
+            ]),
             Rel::Succeed => G::Succeed,
             Rel::Fail => G::Fail,
             Rel::Always => G::Anyo(vec![G::Succeed]),
